@@ -32,6 +32,11 @@ type T struct {
 	IsInclude           bool
 	Round               string
 	Overloads           []T
+
+	// for a configured method: the declared type of each keyword parameter of
+	// THIS declaration (overloads may declare the same keyword differently;
+	// the value table has one slot per class, method and keyword name)
+	keywordTs map[string]*T
 }
 
 func (t *T) DeepCopy() *T {
@@ -72,6 +77,13 @@ func (t *T) DeepCopy() *T {
 	if t.defineArgs != nil {
 		result.defineArgs = make([]string, len(t.defineArgs))
 		copy(result.defineArgs, t.defineArgs)
+	}
+
+	if t.keywordTs != nil {
+		result.keywordTs = make(map[string]*T, len(t.keywordTs))
+		for name, keywordT := range t.keywordTs {
+			result.keywordTs[name] = keywordT
+		}
 	}
 
 	if t.variants != nil {
